@@ -31,7 +31,14 @@ fn run_case(c: &Case, st: &mut Stats, want: bool) -> CaseOut {
     let dn = (c.dw * c.dh) as usize;
     let spix = canary(&mut rng, sn);
     let dpix = canary(&mut rng, dn);
-    let mut src = DrawTarget::from_vec(c.sw, c.sh, spix.clone());
+    // (now and then built from a longer, recycled vector: what lies beyond width x height is not part of the surface)
+    let mut src = if c.seed % 11 == 4 {
+        let mut v = spix.clone();
+        v.extend((0..(2 * c.sw.max(1) + 3) as u32).map(|k| 0xff00ff00 ^ (k * 0x00010203)));
+        DrawTarget::from_vec(c.sw, c.sh, v)
+    } else {
+        DrawTarget::from_vec(c.sw, c.sh, spix.clone())
+    };
     // the source's own transform, clip and open layers are none of the copy's business either: what is
     // copied is the source's pixels (what its get_data shows)
     if c.seed % 7 == 3 {
